@@ -238,6 +238,8 @@ def _elem_witnesses():
     both("c10_add_int_double", "C10", "add(int array, double array): published element type and access type are double", "nm::unwrap(view::add(xi, xd))")
     both("c04_where_int_double", "C04", "where(cond, int x, double y): element type is the common type of x and y (y is not truncated)", "nm::unwrap(view::where(c, xi, xd))")
     both("c04_where_double_int", "C04", "where(cond, double x, int y): element type is the common type of x and y", "nm::unwrap(view::where(c, xd, xi))")
+    both("c07_where_int_double", "C07", "where(cond, int x, double y) as an element-wise (ternary) function: element type is the type of c ? x : y", "nm::unwrap(view::where(c, xi, xd))")
+    both("c07_where_double_int", "C07", "where(cond, double x, int y) as an element-wise (ternary) function: element type is the type of c ? x : y", "nm::unwrap(view::where(c, xd, xi))")
     return out
 WITNESSES += _elem_witnesses()
 
